@@ -278,6 +278,9 @@ FAMILIES = {
     "blank": ["k1", " k1", "k1 ", " k1 ", "k 1", "k  1"],
     "numeric": ["1", "01", "1.0", "1e3", "1000", "001", "1.", "+1", "1E3", "0x1", "1000.0"],
     "like": ["a%c", "a_c", "abc", "a%", "a_", "%", "_", "a%%c", "a\\_c", "a%25c", "a%63"],
+    # spellings that an encode / decode round trip through another encoding maps onto each other ('é'.encode('utf-8')
+    # read as latin-1 is the two-letter text 'Ã©'), composed / decomposed / upper-case forms
+    "encoding": ["\u00e9", "\u00c3\u00a9", "e\u0301", "\u00c9", "g\u00e9", "g\u00c3\u00a9", "\u00ff", "\u00c3\u00bf"],
 }
 
 
@@ -590,3 +593,85 @@ def gen_collide_case(rng):
     case = finish_import(rng, fmt, "collide:" + form, spec, recs, special=True, absent=absent_for(placed + [(dup, key)], recs))
     case.update(kind="collide", strategy=rng.choice(["error", "create_unique", "create_unique"]), dup=dup)
     return case
+
+
+# ---------------------------------------------------------------------------------------------------------------
+# SEVERAL successive update() calls through one FeatureDB object (optionally with a reopen in between), each adding
+# features that lack the id attribute, on a database whose first import auto-numbered nothing (every feature had its id
+# attribute) or that already has counters; under every merge strategy (the keys are all distinct: nothing collides).
+STRATEGIES = ["error", "warning", "replace", "create_unique", "merge"]
+SUCCESSIVE_FORMS = ["none", "none", "str", "list", "dict-str", "dict-list", "dict-subclass", "callable:name_attr", "callable:always_none",
+                    "callable:autoincrement_const", "callable:mixed"]
+
+
+def successive_spec(rng, form, fmt, types):
+    if form == "none" or form.startswith("callable:"):
+        return spec_of(rng, form, [], fmt)
+    if form == "str":
+        return {"form": "str", "v": "ID"}
+    if form == "list":
+        return {"form": "list", "v": rng.choice([["ID", "Name"], ["nokey", "ID"], ["ID"], ["ID", "Alias"]])}
+    ent = (lambda: "ID") if form == "dict-str" else (lambda: rng.choice([["ID"], ["nokey", "ID"], ["ID", "Name"]]))
+    if form in ("dict-str", "dict-list"):
+        return {"form": "dict", "v": dict((t, ent()) for t in types)}
+    cls = rng.choice(["defaultdict", "missing", "ordered", "subclass"])
+    spec = {"form": "dict", "v": dict((t, "ID") for t in types), "cls": cls}
+    if cls == "defaultdict":
+        spec["default"] = "ID"
+    elif cls == "missing":
+        spec["missing"] = {}
+    return spec
+
+
+def gen_successive_case(rng, strategy=None, start=None):
+    """start: "keyed" (every feature of the first import has its id attribute: no key is auto-numbered, the
+    autoincrements table starts empty) | "counters" (the first import already hands out '<featuretype>_<n>' keys)."""
+    fmt = rng.choice(["gff3", "gff3", "gff3", "gtf"])
+    start = start or rng.choice(["keyed", "keyed", "counters"])
+    form = rng.choice(SUCCESSIVE_FORMS)
+    if fmt == "gtf" and form == "none" and start == "keyed":
+        form = "str"            # the default spec of the format auto-numbers every line that is not a gene / transcript
+    pool = rng.sample(["exon", "CDS", "start_codon"] if fmt == "gtf" else ["exon", "CDS", "mRNA", "ncRNA", "region"], rng.choice([1, 1, 2]))
+    n0 = rng.choice([1, 2, 3, 4, 6])
+    base = records(rng, fmt, n0, 0.0)
+    types = sorted(set(r["featuretype"] for r in base) | set(pool))
+    spec = successive_spec(rng, form, fmt, types)
+    idattr = "Name" if form == "callable:name_attr" else "ID"
+    if start == "keyed":
+        for i, rec in enumerate(base):
+            if fmt == "gtf" and form == "none":
+                continue
+            set_attr(rec, idattr, ["b%d" % i])
+            if form == "callable:mixed":
+                rec["featuretype"] = rng.choice(["gene", "mRNA"] if fmt == "gff3" else ["gene", "transcript"])
+    elif base:
+        for rec in base[:rng.randrange(1, len(base) + 1)]:
+            if rng.random() < 0.6:
+                rec["featuretype"] = rng.choice(pool)
+            rec["attrs"] = [a for a in rec["attrs"] if a[0] not in ("ID", "Name", "Alias")] or [["Note", ["first"]]]
+            while rec["attrs"][0][1] == []:
+                rec["attrs"].append(rec["attrs"].pop(0))
+    batches = [base]
+    k = rng.choice([2, 2, 3, 3, 4])
+    off = 30
+    for _ in range(k):
+        m = rng.choice([1, 1, 2, 2, 3, 4])
+        recs = records(rng, fmt, m, 0.0, offset=off)
+        off += m + 2
+        for rec in recs:
+            if rng.random() < 0.85:
+                rec["featuretype"] = rng.choice(pool)
+            if rng.random() < 0.85:
+                # lacks the id attribute(s): the key is '<featuretype>_<n>'
+                rec["attrs"] = [a for a in rec["attrs"] if a[0] not in ("ID", "Name", "Alias")] or [["Note", ["later%s" % rec["start"]]]]
+                while rec["attrs"][0][1] == []:
+                    rec["attrs"].append(rec["attrs"].pop(0))
+        batches.append(recs)
+    db = rng.choice(["file", "file", "memory"])
+    reopen_before = [False] * k
+    if db == "file" and rng.random() < 0.35:
+        reopen_before[rng.randrange(0, k)] = True       # for contrast: a fresh handle reads the stored counters
+    return {"kind": "import", "fmt": fmt, "form": "successive:" + form.split(":")[0], "spec": spec, "batches": batches, "infer": False,
+            "db": db, "input": rng.choice(["string", "string", "path"]), "reopen": rng.random() < 0.5,
+            "ustrategy": strategy or rng.choice(STRATEGIES), "reopen_before": reopen_before,
+            "handle": rng.choice(["create_db", "FeatureDB"]) if db == "file" else "create_db", "start": start}
